@@ -10,7 +10,7 @@ use crate::driver::{expected_obs, group_by_name, observe_response, RespObs};
 use crate::engine::{guarded, hex, show, unhex, Report, Tier, Violation};
 use crate::refmodel::head;
 
-pub const RULE: &str = "response heads (C05 grammar) and request heads (method {GET,POST,OPTIONS,M-SEARCH} x target {/,/a?b=c,*,http://a.test/x} x version {1.0,1.1}, plus authority-form, urn: absolute-form and a 70000-byte path) with f fields for every f in 0..=N+2 (N=128: f in {0,1,2,126..=130}) for each limit N in {0,1,4,128} (four monomorphic instances of each const-generic parser); all ordered field lists up to length 2 (thorough 3) over the 9-entry pool, rotations of the pool beyond; EVERY prefix length of every head and the complete head followed by {1 byte, garbage, a second message}; parsers try_parse_response, try_parse_partial_response, try_parse_request. distinct = distinct (head, limit, parser) triples";
+pub const RULE: &str = "response heads (C05 grammar) and request heads (method {GET,POST,OPTIONS,M-SEARCH} x target {/,/a?b=c,*,http://a.test/x} x version {1.0,1.1}, plus the mixed-case extension methods {get, Post, patcH}, authority-form, urn: absolute-form and a 70000-byte path) with f fields for every f in 0..=N+2 (N=128: f in {0,1,2,126..=130}) for each limit N in {0,1,4,128} (four monomorphic instances of each const-generic parser); all ordered field lists up to length 2 (thorough 3) over the 9-entry pool, rotations of the pool beyond; EVERY prefix length of every head and the complete head followed by {1 byte, garbage, a second message}; parsers try_parse_response, try_parse_partial_response, try_parse_request. distinct = distinct (head, limit, parser) triples";
 
 const LIMITS: [usize; 4] = [0, 1, 4, 128];
 
@@ -215,7 +215,7 @@ fn call_sequences(rep: &mut Report) {
         fam.push((head(sl, &fields), fields.len()));
     }
     let mut cells = 0u64;
-    let mut fail = |rep: &mut Report, r: Option<(String, String)>, what: String| {
+    let fail = |rep: &mut Report, r: Option<(String, String)>, what: String| {
         if let Some((key, w)) = r {
             rep.violation(Violation { key: format!("{}:in-sequence", key), ord: 99_000_000, what: format!("{} [{}]", w, what), replay: json!({"kind": "sequences"}) });
         }
@@ -278,6 +278,10 @@ pub fn run(tier: Tier) -> Report {
             for t in ["/", "/a?b=c", "*", "http://a.test/x"] {
                 starts.push(("request", format!("{} {} HTTP/{}", m, t, v).into_bytes()));
             }
+        }
+        // method tokens are case-sensitive: these are extension methods, not GET / POST / PATCH
+        for m in ["get", "Post", "patcH"] {
+            starts.push(("request", format!("{} /x HTTP/{}", m, v).into_bytes()));
         }
         // other well-formed request targets: authority-form, absolute-form without authority, a very long path
         starts.push(("request", format!("CONNECT a.test:443 HTTP/{}", v).into_bytes()));
